@@ -216,6 +216,11 @@ impl Report {
             eprintln!("MACHINERY FAILURE: cannot write evidence {}: {}", path, e);
             return 2;
         }
+        // a thorough run also leaves a copy that the next quick run does not overwrite
+        if self.tier.thorough() {
+            let _ = std::fs::create_dir_all(format!("{}/evidence_thorough", vdir));
+            let _ = std::fs::write(format!("{}/evidence_thorough/{}.json", vdir, self.property), serde_json::to_string_pretty(&ev).unwrap());
+        }
         if exit == 0 && !missed.is_empty() && std::env::var("VERIF_STRICT_COVERAGE").is_ok() {
             eprintln!("MACHINERY FAILURE: strict coverage requested and obligations missed");
             return 2;
